@@ -50,12 +50,15 @@ class Outcome:
 
 
 SymFn = Callable[[ast.expr], Any]
+NOT_MODELLED = object()
 
 
 class Evaluator:
     def __init__(self, env: Dict[str, Any], sym: Optional[SymFn] = None, opaque_return: bool = True, ignore_calls: Iterable[str] = (),
-                 call_hook: Optional[Callable[[ast.Call, "Evaluator"], bool]] = None):
+                 call_hook: Optional[Callable[[ast.Call, "Evaluator"], bool]] = None,
+                 call_value: Optional[Callable[[ast.Call, "Evaluator"], Any]] = None):
         self.call_hook = call_hook
+        self.call_value = call_value  # models a call inside an expression: returns NOT_MODELLED when it does not know the callee
         self._init(env, sym, opaque_return, ignore_calls)
 
     def _init(self, env: Dict[str, Any], sym: Optional[SymFn], opaque_return: bool, ignore_calls: Iterable[str]) -> None:
@@ -74,6 +77,10 @@ class Evaluator:
             if isinstance(e.value, (int, bool, str, bytes)) or e.value is None:
                 return e.value
             raise Unsupported(e)
+        if isinstance(e, ast.Call) and getattr(self, "call_value", None) is not None:
+            v = self.call_value(e, self)
+            if v is not NOT_MODELLED:
+                return v
         if isinstance(e, ast.Subscript):
             base = self.ev(e.value)
             if isinstance(base, (tuple, str, bytes, bytearray)):
@@ -103,12 +110,23 @@ class Evaluator:
             if isinstance(base, Obj) and e.attr in base.__dict__:
                 return base.__dict__[e.attr]
             raise Unsupported(e, "unbound attribute")
-        if isinstance(e, ast.Call) and isinstance(e.func, ast.Name) and e.func.id in ("len", "max", "min", "abs", "int", "bool", "sum", "any", "all", "str", "tuple", "list", "range", "bytes", "divmod", "bytearray") \
-                and all(k.arg == "default" for k in e.keywords):
+        if isinstance(e, ast.Call) and isinstance(e.func, ast.Name) and e.func.id in ("len", "max", "min", "abs", "int", "bool", "sum", "any", "all", "str", "tuple", "list", "range", "bytes", "divmod", "bytearray", "reversed", "enumerate", "sorted", "zip") \
+                and all(k.arg in ("default", "start") for k in e.keywords):
             args = [self.ev(a) for a in e.args]
             kw = {k.arg: self.ev(k.value) for k in e.keywords}
             try:
-                return {"len": len, "max": max, "min": min, "abs": abs, "int": int, "bool": bool, "sum": sum, "any": any, "all": all, "str": str, "tuple": tuple, "list": tuple, "range": range, "bytes": bytes, "divmod": divmod, "bytearray": bytearray}[e.func.id](*args, **kw)
+                return {"len": len, "max": max, "min": min, "abs": abs, "int": int, "bool": bool, "sum": sum, "any": any, "all": all, "str": str, "tuple": tuple, "list": tuple, "range": range, "bytes": bytes, "divmod": divmod, "bytearray": bytearray,
+                        "reversed": lambda x: tuple(reversed(x)), "enumerate": lambda x, start=0: tuple(enumerate(x, start)), "sorted": lambda x: tuple(sorted(x)),
+                        "zip": lambda *a: tuple(zip(*a))}[e.func.id](*args, **kw)
+            except Exception:
+                raise Unsupported(e)
+        if isinstance(e, ast.Call) and isinstance(e.func, ast.Attribute) and e.func.attr == "join" and len(e.args) == 1 and not e.keywords \
+                and ast.unparse(e.func.value) in ("b''", "bytes()", "bytearray()", "''"):
+            # <empty separator>.join(seq): concatenation of a modelled sequence of bytes / str
+            seq = self.ev(e.args[0])
+            sep = "" if ast.unparse(e.func.value) == "''" else b""
+            try:
+                return sep.join(bytes(x) if isinstance(x, bytearray) else x for x in seq)
             except Exception:
                 raise Unsupported(e)
         if isinstance(e, ast.Call) and ast.unparse(e.func) in ("math.ceil", "ceil") and len(e.args) == 1 and isinstance(e.args[0], ast.BinOp) and isinstance(e.args[0].op, ast.Div):
@@ -207,21 +225,28 @@ class Evaluator:
             raise Unsupported(e)
         if isinstance(e, ast.IfExp):
             return self.ev(e.body) if self.ev(e.test) else self.ev(e.orelse)
-        if isinstance(e, (ast.GeneratorExp, ast.ListComp)) and len(e.generators) == 1 and isinstance(e.generators[0].target, ast.Name):
+        if isinstance(e, (ast.GeneratorExp, ast.ListComp)) and len(e.generators) == 1 and (isinstance(e.generators[0].target, ast.Name) or (
+                isinstance(e.generators[0].target, ast.Tuple) and all(isinstance(x, ast.Name) for x in e.generators[0].target.elts))):
             g = e.generators[0]
             seq = self.ev(g.iter)
-            if not isinstance(seq, (tuple, range)):
+            if not isinstance(seq, (tuple, range, bytes)):
                 raise Unsupported(e)
             out = []
-            saved = self.env.get(g.target.id, None)
+            names = [g.target.id] if isinstance(g.target, ast.Name) else [x.id for x in g.target.elts]
+            saved = {n: self.env[n] for n in names if n in self.env}
             for item in seq:
-                self.env[g.target.id] = item
+                if isinstance(g.target, ast.Name):
+                    self.env[g.target.id] = item
+                else:
+                    if not isinstance(item, tuple) or len(item) != len(names):
+                        raise Unsupported(e)
+                    for n, v in zip(names, item):
+                        self.env[n] = v
                 if all(self.ev(c) for c in g.ifs):
                     out.append(self.ev(e.elt))
-            if saved is None:
-                self.env.pop(g.target.id, None)
-            else:
-                self.env[g.target.id] = saved
+            for n in names:
+                self.env.pop(n, None)
+            self.env.update(saved)
             return tuple(out)
         raise Unsupported(e)
 
@@ -254,7 +279,16 @@ class Evaluator:
                     v = self.ev(st.value.args[0])
                     self.env[f.value.id] = self.env[f.value.id] + ((v,) if f.attr == "append" else tuple(v))
                     return None
+                if isinstance(f, ast.Attribute) and f.attr == "insert" and isinstance(f.value, ast.Name) and isinstance(self.env.get(f.value.id), tuple) \
+                        and len(st.value.args) == 2 and not st.value.keywords:
+                    i, v = self.ev(st.value.args[0]), self.ev(st.value.args[1])
+                    lst = list(self.env[f.value.id])
+                    lst.insert(i, v)
+                    self.env[f.value.id] = tuple(lst)
+                    return None
                 if self.call_hook is not None and self.call_hook(st.value, self):
+                    return None
+                if getattr(self, "call_value", None) is not None and self.call_value(st.value, self) is not NOT_MODELLED:
                     return None
             raise Unsupported(st)
         if isinstance(st, ast.Pass):
@@ -319,6 +353,11 @@ class Evaluator:
             if not isinstance(seq, tuple):
                 raise Unsupported(st)
             return self._loop(st, list(enumerate(seq, start)), pair=True)
+        if isinstance(st, ast.For) and isinstance(st.target, ast.Tuple) and all(isinstance(x, ast.Name) for x in st.target.elts) and not st.orelse:
+            seq = self.ev(st.iter)
+            if not isinstance(seq, tuple) or not all(isinstance(i, tuple) and len(i) == len(st.target.elts) for i in seq):
+                raise Unsupported(st)
+            return self._loop(st, seq, pair=True)
         if isinstance(st, ast.For):
             # only `for <name> in range(<int exprs>)` with a small bound
             it = st.iter
@@ -360,6 +399,16 @@ class Evaluator:
                 return None
             if isinstance(tgt, ast.Attribute) and st.value is not None:
                 self._store(tgt, self.ev(st.value), st)
+                return None
+            if isinstance(tgt, ast.Subscript) and st.value is not None and isinstance(tgt.value, ast.Name) and isinstance(self.env.get(tgt.value.id), tuple) \
+                    and not isinstance(tgt.slice, ast.Slice):
+                # item store on a local sequence (modelled as a tuple)
+                lst = list(self.env[tgt.value.id])
+                try:
+                    lst[self.ev(tgt.slice)] = self.ev(st.value)
+                except IndexError:
+                    return Outcome("raise", "IndexError", st)
+                self.env[tgt.value.id] = tuple(lst)
                 return None
             if isinstance(tgt, ast.Subscript) and st.value is not None:
                 base = self.ev(tgt.value)
@@ -415,7 +464,8 @@ class Evaluator:
         if True:
             for i in seq:
                 if pair:
-                    self.env[st.target.elts[0].id], self.env[st.target.elts[1].id] = i
+                    for x, v in zip(st.target.elts, i):
+                        self.env[x.id] = v
                 else:
                     self.env[st.target.id] = i
                 brk = False
